@@ -513,8 +513,8 @@ def spec_sel(N, mults, dims, excl, conv, sel):
 
 class TtvFam(C02Family):
     name = "ttv"
-    theorems = ("C02_ttv_dense", "C02_ttv_sparse", "C02_ttv_kruskal", "C02_ttv_tucker", "C02_dims_any_order",
-                "C02_exclude_dims", "C02_list_len_N_vs_P")
+    theorems = ("C02_ttv_dense", "C02_ttv_dense_dims", "C02_ttv_sparse", "C02_ttv_sparse_dims", "C02_ttv_spec_set",
+                "C02_dims_any_order", "C02_exclude_dims", "C02_list_len_P", "C02_list_len_N_vs_P")
 
     def case(self, rng, X, sel, conv, shuffle=True, tag=()):
         shape = h_shape(X)
@@ -603,7 +603,8 @@ class TtvFam(C02Family):
 
 class TtmFam(C02Family):
     name = "ttm"
-    theorems = ("C02_ttm_dense", "C02_ttm_sparse", "C02_ttm_tucker")
+    theorems = ("C02_ttm_dense_mode", "C02_ttm_dense", "C02_ttm_spec_peel", "C02_dims_any_order", "C02_exclude_dims",
+                "C02_list_len_P", "C02_list_len_N_vs_P")
 
     def case(self, rng, X, sel, conv, tr, single=False):
         shape = h_shape(X)
@@ -664,7 +665,7 @@ def k_operand(rng, shape, as_kruskal, R=None, weights=None):
 
 class MttkrpFam(C02Family):
     name = "mttkrp"
-    theorems = ("C02_mttkrp_dense", "C02_mttkrp_sparse", "C02_mttkrp_kruskal", "C02_mttkrp_tucker", "C02_mttkrp_weights")
+    theorems = ("C02_mttkrp_dense", "C02_mttkrp_dense_kruskal", "C02_mttkrp_weights_spec", "C02_mttkrp_sparse")
 
     def gen(self, rng, tier):
         out = []
@@ -708,7 +709,7 @@ class MttkrpsFam(C02Family):
 class InnerFam(C02Family):
     name = "innerprod"
     theorems = ("C02_innerprod_dense", "C02_innerprod_sparse_sparse", "C02_innerprod_sparse_dense",
-                "C02_innerprod_kruskal", "C02_norm_dense", "C02_norm_sparse", "C02_norm_kruskal")
+                "C02_norm_dense", "C02_norm_sparse")
 
     def gen(self, rng, tier):
         out = []
@@ -744,7 +745,7 @@ class InnerFam(C02Family):
 class ContractCollapseScaleFam(C02Family):
     name = "contract_collapse_scale"
     theorems = ("C02_contract_dense", "C02_contract_sparse", "C02_collapse_dense", "C02_collapse_sparse",
-                "C02_scale_dense", "C02_scale_sparse")
+                "C02_collapse_sum_ok", "C02_scale_dense", "C02_scale_sparse")
 
     def gen(self, rng, tier):
         out = []
@@ -801,7 +802,7 @@ class ContractCollapseScaleFam(C02Family):
 
 class TttFam(C02Family):
     name = "ttt"
-    theorems = ("C02_ttt_dense",)
+    theorems = ()  # model + spec + correspondence only
 
     def gen(self, rng, tier):
         out = []
@@ -829,7 +830,7 @@ class TttFam(C02Family):
 
 class FullFam(C02Family):
     name = "full"
-    theorems = ("C02_tucker_full", "C02_sum_full")
+    theorems = ("C02_tucker_full",)
 
     def gen(self, rng, tier):
         out = []
